@@ -113,6 +113,7 @@ func c01Units(t core.Tier) []c01Unit {
 	for i := 0; i < n; i++ {
 		us = append(us, c01Unit{"d2", i})
 	}
+	us = append(us, c01Unit{"edge", 0}, c01Unit{"edge", 1})
 	for i := range c01SmallAtoms() {
 		us = append(us, c01Unit{"d2kw", i})
 		if t == core.Thorough {
@@ -164,6 +165,8 @@ func (c01) RunUnit(t core.Tier, u int, r *core.Reporter) {
 				}
 			}
 		}
+	case "edge":
+		c01Edge(r, un.i)
 	case "d2kw":
 		a := small[un.i]
 		for _, b := range small {
@@ -367,4 +370,51 @@ func predSimplify(c *predCase) []json.RawMessage {
 		out = append(out, core.MustJSON(d))
 	}
 	return out
+}
+
+// c01Edge: predicates whose truth hangs on particular stored values.
+// Part 0: integers beyond 2^53 (neighbours share one float64 image), the
+// int64 limits, decimal text with leading zeros or a sign. Part 1: values with
+// bytes that are no text (0xff, 0xfe, 0x00), a line feed, regexp
+// metacharacters, the empty value and values that differ only in case.
+func c01Edge(r *core.Reporter, part int) {
+	k, v, s, n := ref.Key, ref.Value, ref.S, ref.N
+	mk := func(vals []string) []store.Pair {
+		ps := make([]store.Pair, len(vals))
+		for i, x := range vals {
+			ps[i] = store.Pair{K: fmt.Sprintf("k%02d", i), V: x}
+		}
+		return ps
+	}
+	var preds []*ref.Expr
+	var ps []store.Pair
+	if part == 0 {
+		nums := []int64{7, 9007199254740992, 9007199254740993, 9007199254740994, 1234567890123456789, 9223372036854775806, 9223372036854775807}
+		ps = mk([]string{"7", "007", "70", "9007199254740992", "9007199254740993", "9007199254740994", "-9007199254740993", "1234567890123456789", "9223372036854775806", "9223372036854775807", "-1", "0"})
+		iv := func() *ref.Expr { return ref.Call("int", v()) }
+		for _, x := range nums {
+			preds = append(preds, ref.Bin("=", iv(), n(x)), ref.Bin("!=", iv(), n(x)), ref.Bin(">", iv(), n(x)), ref.Bin("<=", iv(), n(x)), ref.Bin("=", n(x), iv()),
+				ref.In(iv(), n(x), n(7)), ref.Btw(iv(), n(x-1), n(x)), ref.Bin("=", ref.Bin("-", iv(), n(x)), n(0)), ref.Bin("=", ref.Bin("+", iv(), n(0)), n(x)),
+				ref.Bin("=", ref.Call("str", iv()), s(fmt.Sprint(x))), ref.Bin("=", v(), s(fmt.Sprint(x))))
+		}
+		preds = append(preds, ref.Bin("<", iv(), n(0)), ref.Bin("=", ref.Bin("-", n(0), iv()), n(9007199254740993)), ref.Call("is_int", v()))
+	} else {
+		vals := []string{"", "a", "A", "ab", "a\x00", "a\x00b", "\xff", "\xfe\xff", "a\xff", "ab\ncd", "a.c", "abc", "a b", "\xc3\xa9"}
+		ps = mk(vals)
+		for _, x := range vals {
+			if strings.ContainsAny(x, "'") {
+				continue
+			}
+			preds = append(preds, ref.Bin("=", v(), s(x)), ref.Bin("!=", v(), s(x)), ref.Bin("<", v(), s(x)), ref.Bin(">=", v(), s(x)), ref.Bin("^=", v(), s(x)), ref.Bin(">", s(x), v()),
+				ref.In(v(), s(x), s("A")), ref.Btw(v(), s(""), s(x)), ref.Bin("=", ref.Bin("+", v(), s("!")), s(x+"!")), ref.Bin("=", ref.Call("strlen", v()), n(int64(len(x)))))
+		}
+		for _, re := range []string{"^a.c$", "cd$", "^ab", "^a$", "b\ncd", "^$", "a b", "^[aA]$"} {
+			preds = append(preds, ref.Bin("~=", v(), s(re)))
+		}
+		preds = append(preds, ref.In(v(), s("a"), s("A")), ref.In(v(), s("ab"), s("a\x00")), ref.Bin("&", ref.Bin(">", v(), s("a")), ref.Bin("<", v(), s("a\xff"))), ref.Bin("=", k(), ref.Bin("+", s("k0"), ref.Call("str", ref.Call("strlen", v())))))
+	}
+	for _, p := range preds {
+		c01Explore(r, p, ps, false)
+		c01Explore(r, ref.Not(p), ps, false)
+	}
 }
